@@ -47,6 +47,17 @@ def correspondence(ctx):
             continue
         dis.append(f"operator: {a_} :: {b_}"[:300])
         fails.append({"key": k_, "what": f"{a_}: {b_}"[:400], "code": operator_replay(ctx.seed, ctx.tier, k_)})
+    # `_wrap_result` of every backend called directly on the WHOLE finite lattice (declared result shape x stored system of the
+    # handler x flavor): class, coordinate system and the source of every coordinate vs the Lean rule `wrapVec`
+    wbad, wst = backends.wrap_lattice(ctx)
+    total += wst["wrap_result_calls"]
+    st.update(wst)
+    wseen = set()
+    for a_, b_, k_ in wbad:
+        if k_ not in wseen:
+            wseen.add(k_)
+            dis.append(f"_wrap_result: {a_} :: {b_}"[:300])
+            fails.append({"key": k_, "what": f"`{a_}`: {b_}"[:400], "code": wrap_replay(a_)})
     # documented parameter names and defaults: keyword call = positional call in the documented order (all backends)
     kbad, kst = backends.keyword_lattice(ctx)
     total += kst["keyword_calls"]
@@ -79,3 +90,9 @@ def keyword_replay(seed, tier, key):
     return ("import sys; sys.path.insert(0, %r); sys.path.insert(0, %r)\nfrom harness import backends as Bk\n"
             "class X: seed=%d; tier=%r\nbad, _ = Bk.keyword_lattice(X)\nhit=[b for b in bad if b[2]==%r]\n"
             "assert not hit, hit[0][0] + ' :: ' + hit[0][1]\n" % (C.VERIF, C.VERIF + "/tools", seed, tier, key))
+
+
+def wrap_replay(q):
+    return ("import sys; sys.path.insert(0, %r); sys.path.insert(0, %r)\nfrom harness import backends as Bk\n"
+            "class X: seed=0; tier='quick'\nbad, _ = Bk.wrap_lattice(X)\nhit=[b for b in bad if b[0]==%r]\n"
+            "assert not hit, hit[0][0] + ' :: ' + hit[0][1]\n" % (C.VERIF, C.VERIF + "/tools", q))
